@@ -246,3 +246,20 @@ def expanded_call_sites(F, CG, target):
         else:
             out.append((n, b, None))
     return out
+
+
+
+def derives_from_call(F, labels, target, depth=2):
+    """the value may derive from a call of `target`: directly, or as the result of a crate function (a private helper) whose own
+    result derives from it"""
+    from .origins import Origins, calls_in
+    cs = calls_in(labels)
+    if any(c == target or c.endswith(target) for c in cs):
+        return True
+    if depth <= 0:
+        return False
+    for c in cs:
+        if c in F.fns and (c.startswith("ucglib::") or c.startswith("ucg::") or c.startswith("<ucglib::")) and not F.fns[c].derived:
+            if derives_from_call(F, Origins(F.fns[c]).of_local(0), target, depth - 1):
+                return True
+    return False
